@@ -135,6 +135,8 @@ class BDD:
             go(hi, acc)
             acc.pop()
         go(f, [])
+        if len(out) >= limit:
+            return None      # too many paths: callers must treat the predicate as undecided
         return out
 
     def as_conjunction(self, f):
